@@ -20,7 +20,7 @@ def smokeExpected : List (String × String) :=
     ("push", "mk 1 4-9 | mu 1 5 k1={\"a\":1} rev=2 fl=7 exp=0 cas=1700000000000000000 dt=1 coll=_default t=1700000000 off=(777,5,4,9,99) | de 1 6 k2 off=(777,6,4,9,99) | ex 1 7 k3 off=(777,7,4,9,99) | sa 1 9 off=(777,9,9,9,99)"),
     ("close", "ok end 1 closed closes=1 open=[4]"),
     ("server-end", "end 2 state-changed"),
-    ("scripted-status", "ok n=0"),
+    ("scripted-status", "err"),   -- a server error status is reported (F7 repaired by fix: c9cc595; the pinned tree gave `ok n=0`)
     ("scripted-failover-err", "err ok"),
     ("cbmeta", "exist=true 0:18446744073709551615,9007199254740993,9223372036854775809,18446744073709551615 1:0,0,0,0 2:18446744073709551615,9007199254740995,9223372036854775809,18446744073709551615 3:0,0,0,0 ; MUTATEIN _connector:cbgo:smoke:checkpoint:0 0 ; MUTATEIN _connector:cbgo:smoke:checkpoint:0 1 ; MUTATEIN _connector:cbgo:smoke:checkpoint:2 0 ; MUTATEIN _connector:cbgo:smoke:checkpoint:2 0 ; MUTATEIN _connector:cbgo:smoke:checkpoint:2 1 ; SET _connector:cbgo:smoke:checkpoint:0 0 ; SET _connector:cbgo:smoke:checkpoint:2 0"),
     ("shutdown", "ok") ]
